@@ -6,9 +6,9 @@ import core
 import gen
 
 
-def harness_spec(D, periodic, omp=True):
-    name = "h_tsm_%d_%d%s" % (D, periodic, "_omp" if omp else "")
-    flags = ["-DDIM=%d" % D, "-DPERIODIC=%d" % periodic]
+def harness_spec(D, periodic, omp=True, wide=False):
+    name = "h_tsm_%d_%d%s%s" % (D, periodic, "_omp" if omp else "", "_w64" if wide else "")
+    flags = ["-DDIM=%d" % D, "-DPERIODIC=%d" % periodic] + (["-DSLOTBITS=64"] if wide else [])
     srcs = ["h_tsm.cpp"]
     if omp:
         flags += ["-DUSE_OMP", "-fopenmp"]
@@ -16,8 +16,8 @@ def harness_spec(D, periodic, omp=True):
     return {"name": name, "sources": srcs, "flags": flags}
 
 
-def build(configs, omp=True):
-    specs = {c: harness_spec(c[0], c[1], omp) for c in sorted(set(configs))}
+def build(configs, omp=True, wide=False):
+    specs = {c: harness_spec(c[0], c[1], omp, wide) for c in sorted(set(configs))}
     res = common.build_many(list(specs.values()))
     ok, bad = {}, {}
     for c, s in specs.items():
